@@ -20,11 +20,15 @@
  *   M:<block_align>:<align>:<flags>:<hex>    embed_buffer
  *   X:<clustering>:<block_align>:<id hex|->  set_vtable_clustering, set_block_align, set_identifier
  *   K:<id>                                   check_required_field(id) must be true  (within a table frame)
+ *   P / Q                                    push_buffer_alignment (result kept on a stack) / pop_buffer_alignment(top of that stack): the low-level
+ *                                            bracket around create_buffer(is_nested) that replaces start_buffer / end_buffer
+ *   Z                                        flatcc_builder_reset: abandons everything built so far (tables may be left open); results restart at 0
  * With -DWITH_GLUE (one binary per corpus schema) the GENERATED builder API of that schema is reachable as well:
  *   Gs:<t> <T>_start   Ge:<t> <T>_end   Ga:<t>:<fi>:<hex> <T>_<f>_add (scalar: default elision applies; struct: by pointer)
+ *   GA:<t>:<fi>:<hex> <T>_<f>_create(struct field BY ARGUMENTS: every leaf in declaration order)
  *   Gf:<t>:<fi>:<hex> <T>_<f>_force_add   Go:<t>:<fi>:<r> <T>_<f>_add(ref)   Gu:<t>:<fi>:<code>:<r|-> union   Gv:<t>:<fi>:<rt>:<rv> union vector
  *   GS:<t>:<fi>:<style>:<hex> string field  c _create, s _create_str, n _create_strn, b _start/append/_end, k _clone, l _slice   (1 result slot, value 0)
- *   GV:<t>:<fi>:<style>:<count>:<hex> vector field  c _create, p _push, e _extend, a _append, t append+_truncate                 (1 slot)
+ *   GV:<t>:<fi>:<style>:<count>:<hex> vector field  c _create, p _push, e _extend, a _append, t append+_truncate, k _push_create by arguments (struct elements)  (1 slot)
  *   GW:<t>:<fi>:<style>/<hex>,..  string vector field: _start, per element p _push(create) c _push_create s _push_create_str n _push_create_strn
  *                                  b _push_start/append/_push_end k _push_clone l _push_slice, _end                                 (elements + 1 slots)
  *   GX:<t>:<fi>:<code>/<style>/<hex|r>,..  union vector field: _start, <Member>_push* per element (string members as for GW, r = ref), _end (strings + 2 slots)
@@ -99,6 +103,7 @@ static int moving_alloc(void *ctx, flatcc_iovec_t *b, size_t request, int zero_f
     return 0;
 }
 
+static uint16_t pushed[64]; static int npushed;      /* push_buffer_alignment results (ops P / Q) */
 #define MAXREG 65536
 static flatcc_builder_ref_t regs[MAXREG];
 static int nregs;
@@ -220,6 +225,8 @@ static int run_op(flatcc_builder_t *B, char *op)
         FAILIF(flatcc_builder_table_add_union(B, atoi(f[1]), u)); return 0; }
     if (!strcmp(f[0], "Tv")) { flatcc_builder_union_vec_ref_t u; u.type = regs[atoi(f[2])]; u.value = regs[atoi(f[3])];
         FAILIF(flatcc_builder_table_add_union_vector(B, atoi(f[1]), u)); return 0; }
+    if (!strcmp(f[0], "P")) { if (npushed < 64) pushed[npushed++] = flatcc_builder_push_buffer_alignment(B); return 0; }
+    if (!strcmp(f[0], "Q")) { FAILIF(npushed == 0); flatcc_builder_pop_buffer_alignment(B, pushed[--npushed]); return 0; }
     if (!strcmp(f[0], "K")) { FAILIF(!flatcc_builder_check_required_field(B, (flatbuffers_voffset_t)atoi(f[1]))); return 0; }
     if (!strcmp(f[0], "Te")) { flatcc_builder_ref_t r = flatcc_builder_end_table(B); FAILIF(!r); push_reg(r); return 0; }
     if (!strcmp(f[0], "B")) { char id[4]; int has = get_id(f[1], id);
@@ -248,10 +255,16 @@ int main(void)
         char *failop = 0;
         if (nt < 1 || (strcmp(tok[0], "build") && strcmp(tok[0], "buildm") && strcmp(tok[0], "buildd"))) { printf("BAD\n"); fflush(stdout); continue; }
         memset(&R, 0, sizeof(R));
-        nregs = 0;
+        nregs = 0; npushed = 0;
         if (tok[0][5] == 'd') flatcc_builder_init(B);
         else flatcc_builder_custom_init(B, rec_emit, &R, tok[0][5] == 'm' ? moving_alloc : 0, 0);
         for (i = 1; i < nt; ++i) {
+            if (!strcmp(tok[i], "Z")) {
+                /* abandon whatever is open and start over: flatcc_builder_reset; results and the recording start afresh */
+                if (flatcc_builder_reset(B)) { failed = i - 1; failop = strdup(tok[i]); break; }
+                free(R.front.p); free(R.back.p); free(R.log.p); free(R.recs); memset(&R, 0, sizeof(R)); nregs = 0;
+                continue;
+            }
             failop = strdup(tok[i]);
             if (run_op(B, tok[i])) { failed = i - 1; break; }
             free(failop); failop = 0;
